@@ -21,6 +21,69 @@ def add_impls(F):
     return [f for f in F.fns if f.name == 'add' and f.impl_trait == ADD_TRAIT]
 
 
+def insert_shape(F, fn, add_paths, depth=0, key_fn_is_time=False):
+    """classify an `add` implementation (following one local helper): ('search', '', fn) | ('delegates', path, fn) | ('bad', why, fn)"""
+    import combin
+    P = prov.prov_of(fn)
+    calls = [(bi, t) for bi, t in fn.calls()]
+    names = [t['func'].get('name') for _, t in calls]
+    local = [(bi, t) for bi, t in calls if t['func'].get('local') and not callee_path(t).endswith('}')]
+    if 'binary_search_by' not in names:
+        if len(local) == 1 and callee_path(local[0][1]) in add_paths:
+            return 'delegates', callee_path(local[0][1]), fn
+        if len(local) == 1 and depth < 2:
+            helper = F.fn(callee_path(local[0][1]))
+            if helper is not None:
+                # is a key-extractor closure `|p| p.time` handed to the helper?
+                key_ok = False
+                for a in P.call_args(local[0][0]):
+                    sa = prov.strip(a)
+                    body = F.fn(sa[2]) if sa[0] == 'agg' and sa[1] == 'closure' else None
+                    if body is not None:
+                        rvk = prov.strip(prov.prov_of(body).return_value(), names=set())
+                        pk = as_param_path(rvk)
+                        key_ok = key_ok or (pk is not None and pk[1][-1:] == ('time',))
+                return insert_shape(F, helper, add_paths, depth + 1, key_ok)
+        return 'bad', 'neither a binary-search insert nor a delegation to one (calls %s)' % [callee_path(t) for _, t in local], fn
+    # every mutation of the vector must be insert(Err(i)) or overwrite at Ok(i)
+    for bi, t in calls:
+        name = t['func'].get('name')
+        if name in MUTATORS and name not in ('insert', 'index_mut', 'deref_mut', 'as_mut_slice'):
+            recv_ty = ''
+            if t['args'] and t['args'][0]['k'] in ('copy', 'move') and 'proj' not in t['args'][0]['p']:
+                recv_ty = fn.locals[t['args'][0]['p']['l']]['s']
+            if 'Vec<' in recv_ty or 'Point' in recv_ty:
+                return 'bad', 'the vector is also mutated by `%s`, bypassing the search' % name, fn
+        if name == 'insert':
+            a = P.call_args(bi)
+            idx = prov.show(a[1], maxdepth=6) if len(a) > 1 else ''
+            if 'binary_search_by' not in idx or 'as Err' not in idx:
+                return 'bad', 'insert position `%s` is not the Err(i) of the binary search' % idx, fn
+        if name == 'index_mut':
+            a = P.call_args(bi)
+            idx = prov.show(a[1], maxdepth=6) if len(a) > 1 else ''
+            if 'binary_search_by' not in idx or 'as Ok' not in idx:
+                return 'bad', 'overwrite position `%s` is not the Ok(i) of the binary search' % idx, fn
+    # comparator: total_cmp on `time` of the probe and of the new point (directly, or through a key function parameter whose
+    # argument at the call site is a closure returning `.time`)
+    bs = [(bi, t) for bi, t in calls if t['func'].get('name') == 'binary_search_by']
+    args = P.call_args(bs[0][0])
+    clo = prov.strip(args[1]) if len(args) > 1 else None
+    cmp_ok = False
+    if clo is not None and clo[0] == 'agg' and clo[1] == 'closure':
+        rv = prov.strip(combin.apply_fn(F, clo, [('param', 99)], 2), names=set())
+        if rv[0] == 'call' and rv[1].get('name') == 'total_cmp':
+            txt = [prov.show(a, maxdepth=4) for a in rv[2]]
+            direct = all('time' in x for x in txt) and any('param#99' in x for x in txt) and not all('param#99' in x for x in txt)
+            via_key = all('indirect(' in x for x in txt) and any('param#99' in x for x in txt) and key_fn_is_time
+            cmp_ok = direct or via_key
+    if not cmp_ok:
+        return 'bad', 'the binary search does not compare `time` of the probe with `time` of the new point via total_cmp', fn
+    if 'insert' not in names:
+        return 'bad', 'no insert at the searched position', fn
+    return 'search', '', fn
+
+
 def check(ctx, F, rule, only=None):
     adds = add_impls(F)
     add_paths = {f.path for f in adds}
@@ -35,27 +98,15 @@ def check(ctx, F, rule, only=None):
         searchers = 0
         for add in mine:
             ctx.saw(add)
-            calls = {t['func'].get('name'): (bi, t) for bi, t in add.calls()}
-            P = prov.prov_of(add)
-            if 'binary_search_by' in calls and 'insert' in calls:
-                cmp_ok = False
-                args = P.call_args(calls['binary_search_by'][0])
-                clo = prov.strip(args[1]) if len(args) > 1 else None
-                if clo is not None and clo[0] == 'agg' and clo[1] == 'closure':
-                    import combin
-                    rv = prov.strip(combin.apply_fn(F, clo, [('param', 99)], 2), names=set())
-                    if rv[0] == 'call' and rv[1].get('name') == 'total_cmp':
-                        leaves = [as_param_path(a) for a in rv[2]]
-                        cmp_ok = all(l is not None and l[1][-1:] == ('time',) for l in leaves) and \
-                            {l[0] for l in leaves if l} == {99, 1}
-                ctx.require(cmp_ok, rule, 'add-shape:%s:%s' % (vec, add.path), '%s = binary_search_by(total_cmp on time) then insert / overwrite' % add.path, add.where(),
-                            bad='%s: the binary search no longer compares `time` with total_cmp: ordering / uniqueness of %s is not maintained' % (add.path, vec))
+            verdict, why, target = insert_shape(F, add, add_paths)
+            if verdict == 'search':
                 searchers += 1
+                ctx.ok(rule, 'add-shape:%s:%s' % (vec, add.path), '%s = binary_search_by(total_cmp on time) then insert at Err(i) / overwrite at Ok(i)%s' % (
+                    add.path, '' if target is add else ' (in helper %s)' % target.path), add.where())
+            elif verdict == 'delegates':
+                ctx.ok(rule, 'add-shape:%s:%s' % (vec, add.path), '%s delegates to %s' % (add.path, why), add.where())
             else:
-                local = [callee_path(t) for _, t in add.calls() if t['func'].get('local')]
-                deleg = len(local) == 1 and local[0] in add_paths
-                ctx.require(deleg, rule, 'add-shape:%s:%s' % (vec, add.path), '%s delegates to %s' % (add.path, local[0] if local else '-'), add.where(),
-                            bad='%s is neither a binary-search insert nor a delegation to one (calls %s)' % (add.path, local))
+                ctx.violation(rule, 'add-shape:%s:%s' % (vec, add.path), '%s: %s — strict time order / uniqueness of %s is not maintained' % (add.path, why, vec), add.where())
         ctx.require(searchers >= 1, rule, 'add-search:' + vec, '%d binary-search insert implementation(s) for %s' % (searchers, vec),
                     bad='no ControlPoint::add for %s performs the binary-search insert' % elem)
         # who mutates the vectors
